@@ -1708,14 +1708,12 @@ class DiameterMessage:
 
         _avp_class = loader.get_avp_class(avp)
 
-        setattr(self, avp_name, _avp_class(avp_value))
-        self[index] = _avp_class(avp_value)
+        new_avp = _avp_class(avp_value)
+        new_avp.flags = avp.flags
+        new_avp.vendor_id = avp.vendor_id
 
-        new_avp_att = getattr(self, avp_name)
-        new_avp_arr = self[index]
-
-        new_avp_att.flags = new_avp_arr.flags = avp.flags
-        new_avp_att.vendor_id = new_avp_arr.vendor_id = avp.vendor_id
+        setattr(self, avp_name, new_avp)
+        self[index] = new_avp
 
 
 class DiameterRequest(DiameterMessage):
